@@ -119,6 +119,51 @@ def block_after(text, start_pat, what):
     return text[b + 1:e], e + 1
 
 
+SITE_TOK = re.compile(r"\.(get_file|stream_list|read_encrypted_full)(?:::<[^>()]*>)?\(")
+LISTING_TOK = re.compile(r"\.list\(|\.list_with_size\(|\bfind_ids?\(|\bfind_starts_with\(|\bstream_all(?:::<[^>()]*>)?\(")
+# the call sites of the un-listed file readers in crates/core/src (file, enclosing fn, reader,
+# 'listed' = a listing / listing reader occurs earlier in the same fn).  Pinned: a new site means a
+# command may read a snapshot / index file by an id it did not get from a listing -> review.
+EXPECTED_SITES = [
+    "backend/decrypt.rs:get_file:read_encrypted_full:explicit",
+    "backend/decrypt.rs:stream_all:stream_list:listed",
+    "backend/decrypt.rs:stream_list:get_file:explicit",
+    "commands/cat.rs:cat_file:read_encrypted_full:listed",
+    "commands/prune.rs:find_used_blobs:stream_list:listed",
+    "repofile/snapshotfile.rs:fill_missing:stream_list:explicit",
+    "repofile/snapshotfile.rs:from_backend:get_file:explicit",
+    "repository.rs:get_file:get_file:explicit",
+    "repository.rs:open_may_use_hot:get_file:listed",
+    "repository.rs:stream_files_list:stream_list:explicit",
+]
+
+
+def read_sites(repo):
+    import os
+    base = os.path.join(repo, "crates/core/src")
+    sites = []
+    for dp, dn, fns in os.walk(base):
+        if "verif_hooks" in dp:
+            continue
+        for f in sorted(fns):
+            if not f.endswith(".rs"):
+                continue
+            rel = os.path.relpath(os.path.join(dp, f), base)
+            src = strip_comments(open(os.path.join(dp, f)).read())
+            k = src.find("#[cfg(test)]")
+            if k >= 0 and "mod tests" in src[k:k + 200]:
+                src = src[:k]
+            for m in SITE_TOK.finditer(src):
+                fm = None
+                for fm in re.finditer(r"\bfn\s+(\w+)", src[:m.start()]):
+                    pass
+                if fm is None:
+                    continue
+                listed = LISTING_TOK.search(src[fm.start():m.start()]) is not None
+                sites.append("%s:%s:%s:%s" % (rel, fm.group(1), m.group(1), "listed" if listed else "explicit"))
+    return sorted(set(sites))
+
+
 def reader_table(repo):
     dec = read(repo, "crates/core/src/backend/decrypt.rs")
     be = read(repo, "crates/core/src/backend.rs")
@@ -344,6 +389,17 @@ def gen(repo):
     out.append("(* Cache::list_with_size: %s *)" % ("only files at <dirname>/<hex[0..2]>/<hex>" if canonical_only else "every 64-hex file below <dirname>/"))
     out.append("Definition lists_strays : bool := %s." % ("false" if canonical_only else "true"))
     rows, reaches = reader_table(repo)
+    sites = read_sites(repo)
+    # check: index read + pack listing (check_packs), then the pack clean-up of the cache, then the tree walk
+    ck = " ".join(fnb(read(repo, "crates/core/src/commands/check.rs"), "check_repository").split())
+    p1, p2, p3 = ck.find("check_packs("), ck.find("cache.remove_not_in_list(FileType::Pack, &ids)"), ck.find("check_trees(")
+    if not (0 <= p1 < p2 < p3) or "index_collector .tree_packs()" not in ck.replace("index_collector.tree_packs()", "index_collector .tree_packs()"):
+        raise ExtractError("check_repository: order check_packs -> cache.remove_not_in_list(Pack, tree packs of the index) -> check_trees changed")
+    if not re.search(r"for file_type in \[FileType::Snapshot, FileType::Index\] \{ _ = be\.list_with_size\(file_type\)\?;", ck):
+        raise ExtractError("check_repository: listing of snapshots and index files before the cache comparison changed")
+    if sites != EXPECTED_SITES:
+        raise ExtractError("call sites of the un-listed file readers changed: new %r, gone %r" %
+                           (sorted(set(sites) - set(EXPECTED_SITES)), sorted(set(EXPECTED_SITES) - set(sites))))
     out.append("")
     out.append("(* Access pattern of the generic readers (events in program order, callees expanded: L = the reader")
     out.append("   lists the file type through ReadBackend::list / list_with_size, R = it reads a file). *)")
@@ -356,7 +412,7 @@ def gen(repo):
     out.append("(* an id-only listing (ReadBackend::list) through DecryptBackend -> Arc<dyn WriteBackend> -> CachedBackend")
     out.append("   ends in CachedBackend::list_with_size, i.e. runs the cache clean-up *)")
     out.append("Definition list_reaches_cleanup : bool := %s." % ("true" if reaches else "false"))
-    meta = {"readers": {nme: evs for nme, evs, _ in rows}, "list_reaches_cleanup": reaches, "lists_strays": not canonical_only, "file_type_cacheable": ft, "blob_type_cacheable": bt, "guards": {k: v[1] for k, v in guards.items()},
+    meta = {"unlisted_reader_call_sites": sites, "readers": {nme: evs for nme, evs, _ in rows}, "list_reaches_cleanup": reaches, "lists_strays": not canonical_only, "file_type_cacheable": ft, "blob_type_cacheable": bt, "guards": {k: v[1] for k, v in guards.items()},
             "early_exit": early_exit, "dirnames": names}
     return "\n".join(out) + "\n", meta
 
